@@ -334,6 +334,52 @@ class NestGuards(ast.NodeTransformer):
         return node
 
 
+class AliasHolders(ast.NodeTransformer):
+    """``<param>.parameters`` / ``.version`` / ``.options`` read in a function are
+    bound once to a local at the top of the function and read through it
+    (``par_ = self.parameters`` ... ``par_.desolv_cutoff``): same meaning as long
+    as the attribute is not re-bound inside the function (checked)."""
+    HOLDERS = ('parameters', 'version', 'options')
+
+    def visit_FunctionDef(self, node):
+        self.generic_visit(node)
+        params = {a.arg for a in node.args.args + node.args.kwonlyargs}
+        stored = set()
+        nested = False
+        for sub in ast.walk(node):
+            if isinstance(sub, ast.Attribute) and isinstance(sub.ctx, (ast.Store, ast.Del)):
+                stored.add(sub.attr)
+            if sub is not node and isinstance(sub, (ast.FunctionDef, ast.Lambda, ast.ClassDef)):
+                nested = True
+        if nested:
+            return node
+        chains = {}
+        for sub in ast.walk(node):
+            if isinstance(sub, ast.Attribute) and isinstance(sub.ctx, ast.Load) and sub.attr in self.HOLDERS \
+                    and sub.attr not in stored and isinstance(sub.value, ast.Name) and sub.value.id in params:
+                chains.setdefault((sub.value.id, sub.attr), []).append(sub)
+        rebound = {t.id for sub in ast.walk(node) if isinstance(sub, ast.Name) and isinstance(sub.ctx, ast.Store)
+                   for t in [sub]}
+        new = []
+        for (base, attr), uses in sorted(chains.items()):
+            if base in rebound:
+                continue
+            local = '%s_%s_' % (base, attr[:3])
+            for u in uses:
+                u.__class__ = ast.Name
+                u.__dict__.clear()
+                u.id, u.ctx = local, ast.Load()
+            new.append(ast.Assign(targets=[ast.Name(id=local, ctx=ast.Store())],
+                                  value=ast.Attribute(value=ast.Name(id=base, ctx=ast.Load()), attr=attr,
+                                                      ctx=ast.Load())))
+        if new:
+            pos = 1 if (node.body and isinstance(node.body[0], ast.Expr)
+                        and isinstance(getattr(node.body[0], 'value', None), ast.Constant)
+                        and isinstance(node.body[0].value.value, str)) else 0
+            node.body[pos:pos] = new
+        return node
+
+
 def reorder_functions(tree):
     """Sort every run of consecutive function definitions (module level and
     class bodies) by name: definition order of functions does not matter."""
@@ -371,6 +417,9 @@ def transform(path, mode):
         ast.fix_missing_locations(tree)
     if 'flip' in mode:
         tree = FlipCompare().visit(tree)
+        ast.fix_missing_locations(tree)
+    if 'alias' in mode:
+        tree = AliasHolders().visit(tree)
         ast.fix_missing_locations(tree)
     if 'nest' in mode:
         tree = NestGuards().visit(tree)
